@@ -208,6 +208,27 @@ func init() {
 		} else {
 			c.Fail("C24a/setReputationPairingScoreByBenchmark/score∈{Max | Min+(benchmark/score)·(Max−Min)}", c.P.InstrPos(sites[0].Instr), "the stored pairing score is not given by the bounded, order-preserving table (unexpected: "+trunc(bad, 160)+")")
 		}
+		// every provider of the pass gets its score stored: no iteration path skips the store
+		if loop := innermostLoop(fn, sites[0].Instr.Block()); loop != nil {
+			store := sites[0].Instr.Block()
+			skip := false
+			for _, s := range loop.Header.Succs {
+				if !loop.Blocks[s] {
+					continue
+				}
+				reach := ir.Reachable(s, func(b *ssa.BasicBlock) bool { return b == store || !loop.Blocks[b] })
+				if reach[loop.Header] && s != store {
+					skip = true
+				}
+			}
+			if skip {
+				c.Fail("C24a/setReputationPairingScoreByBenchmark/every-scored-provider-is-stored", c.P.InstrPos(sites[0].Instr), "an iteration can continue without SetReputationScore: that provider keeps a pairing score from an earlier pass while its neighbours get fresh ones, so a better QoS score can end with the lower pairing score")
+			} else {
+				c.OK("C24a/setReputationPairingScoreByBenchmark/every-scored-provider-is-stored", c.P.InstrPos(sites[0].Instr), "the only ways out of an iteration are the store or an error return")
+			}
+		} else {
+			c.Fail("C24a/setReputationPairingScoreByBenchmark/every-scored-provider-is-stored", c.P.InstrPos(sites[0].Instr), "scores are not stored in the loop over the scored providers")
+		}
 		if strings.HasSuffix(ir.Desc(call.Args[4]), ".Provider") {
 			c.OK("C24a/setReputationPairingScoreByBenchmark/stored-for-the-scored-provider", c.P.InstrPos(sites[0].Instr), "")
 		} else {
